@@ -639,8 +639,16 @@ class Full(Engine):
         items = [x for _, x in self._all_present(args[0], pc)]
         key = kwargs.get("key")
         rev = kwargs.get("reverse", False)
-        keys = [self.call(key, [x], {}, pc) if key is not None else x for x in items]
-        if not any(self.is_sym(k) for k in keys) and isinstance(rev, bool):
+        def key_of(x):
+            if key is None:
+                return x
+            if isinstance(x, Guarded):        # an element that is one of several original objects: evaluate the key per object
+                return self.dist(x, key_of)
+            return self.call(key, [x], {}, pc)
+        keys = [key_of(x) for x in items]
+        def deep_sym(k):
+            return any(deep_sym(x) for x in k) if isinstance(k, tuple) else self.is_sym(k)
+        if not any(deep_sym(k) for k in keys) and isinstance(rev, bool):
             order = sorted(range(len(items)), key=lambda i: keys[i], reverse=rev)
             return SList([(TRUE, items[i]) for i in order])
         if len(items) > 4:
@@ -658,10 +666,23 @@ class Full(Engine):
                 lt = self.to_bool(self.key_lt(b[0], a[0], pc))
                 gt = self.to_bool(self.key_lt(a[0], b[0], pc))
                 sw = z3.If(revc, gt, lt)
-                out[j - 1] = (self.ite(sw, b[0], a[0]), self.ite(sw, b[1], a[1]))
-                out[j] = (self.ite(sw, a[0], b[0]), self.ite(sw, a[1], b[1]))
+                out[j - 1] = (self.ite(sw, b[0], a[0]), self._pick(sw, b[1], a[1]))
+                out[j] = (self.ite(sw, a[0], b[0]), self._pick(sw, a[1], b[1]))
                 j -= 1
         return SList([(TRUE, v) for _, v in out])
+
+    def _pick(self, c, a, b):
+        """a if c else b, keeping containers / objects apart (no field-wise merge) so that their identity survives sorting"""
+        if a is b:
+            return a
+        if isinstance(a, (SDict, SList, Obj, dict, list, Guarded)) or isinstance(b, (SDict, SList, Obj, dict, list, Guarded)):
+            pb = self.pybool(c)
+            if pb is True:
+                return a
+            if pb is False:
+                return b
+            return Guarded([(c, a), (z3.Not(c), b)])
+        return self.ite(c, a, b)
 
     def key_lt(self, a, b, pc):
         if isinstance(a, tuple) and isinstance(b, tuple):
